@@ -28,6 +28,12 @@ B = "DecayChainViewer._build_decay_graph"
 def run(ctx, ss):
     for r, f in (("C15.1", c15_1), ("C15.2", c15_2), ("C15.3", c15_3), ("C15.4", c15_4), ("C15.5", c15_5)):
         ctx.guard(r, f, ss)
+    # C15.6: nothing on the way from the observed entry points is memoised on a parser / tree / path / container (shared.py)
+    from .shared import memo_for
+    ctx.guard("C15.6", memo_for, ss, "C15", "C15.6", "a graph")
+    # C15.6: building a viewer writes no module / class state shared between viewers (a shared graph body would mix their nodes)
+    from .shared import no_shared_state
+    ctx.guard("C15.6", no_shared_state, ss, "C15.6", [("decay/viewer.py", "DecayChainViewer.__init__")])
 
 
 def _helpers(ss):
